@@ -118,19 +118,34 @@ def fold_constants(tree: ast.Module, known: Set[str], stats: dict) -> None:
         elif isinstance(st, ast.AugAssign) and isinstance(st.target, ast.Name):
             binds.setdefault(st.target.id, []).append(None)
     consts = {}
+    exprs: Dict[str, ast.AST] = {}
+
+    def stable(e) -> bool:
+        # a constant, or a dotted name rooted at a module-level name of the baseline vocabulary (e.g. pestruct.X)
+        if isinstance(e, ast.Constant):
+            return True
+        d = e
+        while isinstance(d, ast.Attribute):
+            d = d.value
+        return isinstance(e, ast.Attribute) and isinstance(d, ast.Name) and d.id in known
+
     for name, vals in binds.items():
         if name in known or len(vals) != 1 or vals[0] is None:
             continue
         try:
             consts[name] = _const_value(vals[0])
         except ValueError:
+            v = vals[0]
+            if isinstance(v, ast.Tuple) and v.elts and all(stable(x) for x in v.elts):
+                exprs[name] = v  # immutable tuple of stable elements: folded as an expression
             continue
     # a `global NAME` anywhere disqualifies the name
     for n in ast.walk(tree):
         if isinstance(n, ast.Global):
             for x in n.names:
                 consts.pop(x, None)
-    if not consts:
+                exprs.pop(x, None)
+    if not consts and not exprs:
         return
 
     class Fold(ast.NodeTransformer):
@@ -141,6 +156,12 @@ def fold_constants(tree: ast.Module, known: Set[str], stats: dict) -> None:
             if isinstance(node.ctx, ast.Load) and node.id in consts and node.id not in self.shadow:
                 stats.setdefault("folded_constants", set()).add(node.id)
                 return ast.copy_location(ast.Constant(value=consts[node.id]), node)
+            if isinstance(node.ctx, ast.Load) and node.id in exprs and node.id not in self.shadow:
+                stats.setdefault("folded_constants", set()).add(node.id)
+                new = copy.deepcopy(exprs[node.id])
+                for x in ast.walk(new):
+                    ast.copy_location(x, node)
+                return new
             return node
 
     for _q, fn, _c in _functions(tree):
@@ -256,6 +277,50 @@ def _forward_substitute(stmts: List[ast.stmt], marker: str) -> List[ast.stmt]:
     return stmts
 
 
+def _own_breaks(loop: ast.AST) -> bool:
+    """Does the loop contain a `break` that belongs to it (not to a nested loop)?"""
+    todo = list(loop.body)
+    while todo:
+        n = todo.pop()
+        if isinstance(n, ast.Break):
+            return True
+        if isinstance(n, (ast.While, ast.For, ast.FunctionDef, ast.AsyncFunctionDef, ast.ClassDef, ast.Lambda)):
+            continue
+        todo.extend(ast.iter_child_nodes(n))
+    return False
+
+
+def _returns_to_breaks(stmts: List[ast.stmt], tmp: str) -> List[ast.stmt]:
+    """Inside the body of one loop (no nested loops with returns): `return E` -> `tmp = E; break`."""
+    out: List[ast.stmt] = []
+    for s in stmts:
+        if isinstance(s, ast.Return):
+            out.append(ast.Assign(targets=[ast.Name(id=tmp, ctx=ast.Store())], value=s.value if s.value is not None else ast.Constant(value=None)))
+            out.append(ast.Break())
+            return out
+        if not _has(s, ast.Return):
+            out.append(s)
+            continue
+        new = copy.copy(s)
+        if isinstance(s, ast.If):
+            new.body = _returns_to_breaks(s.body, tmp)
+            new.orelse = _returns_to_breaks(s.orelse, tmp) if s.orelse else []
+        elif isinstance(s, ast.With):
+            new.body = _returns_to_breaks(s.body, tmp)
+        elif isinstance(s, ast.Try) and not _has(s.finalbody, ast.Return):
+            new.body = _returns_to_breaks(s.body, tmp)
+            new.orelse = _returns_to_breaks(s.orelse, tmp) if s.orelse else []
+            new.handlers = []
+            for h in s.handlers:
+                h2 = copy.copy(h)
+                h2.body = _returns_to_breaks(h.body, tmp)
+                new.handlers.append(h2)
+        else:
+            raise _CannotInline(f"return inside nested {type(s).__name__}")
+        out.append(new)
+    return out
+
+
 def _eliminate_returns(stmts: List[ast.stmt], tmp: str, at: ast.AST) -> List[ast.stmt]:
     """Rewrite a helper body so that `return E` becomes `tmp = E` and nothing after it runs (if/else nesting)."""
     out: List[ast.stmt] = []
@@ -284,7 +349,10 @@ def _eliminate_returns(stmts: List[ast.stmt], tmp: str, at: ast.AST) -> List[ast
                 new.body = _eliminate_returns(list(s.body) + rest, tmp, at)
                 out.append(new)
                 return out
-            raise _CannotInline("return under a condition that may also fall through")
+            flag = f"{tmp}_done"
+            out.append(ast.Assign(targets=[ast.Name(id=flag, ctx=ast.Store())], value=ast.Constant(value=False)))
+            out.extend(_eliminate_returns_flag([s] + rest, tmp, flag))
+            return out
         if isinstance(s, ast.Try) and not s.finalbody and not rest:
             new = copy.copy(s)
             if s.orelse:
@@ -305,7 +373,79 @@ def _eliminate_returns(stmts: List[ast.stmt], tmp: str, at: ast.AST) -> List[ast
             new.body = _eliminate_returns(s.body, tmp, at)
             out.append(new)
             return out
+        if isinstance(s, (ast.While, ast.For)) and not s.orelse and not _own_breaks(s) and not _has(rest, (ast.While, ast.For, ast.Try, ast.With)) \
+                and not isinstance(s.test if isinstance(s, ast.While) else None, ast.Constant):
+            # a search loop: `return E` inside becomes `tmp = E; break`, what follows the loop becomes its else-clause
+            new = copy.copy(s)
+            new.body = _returns_to_breaks(s.body, tmp)
+            new.orelse = _eliminate_returns(rest, tmp, at) or [ast.Pass()]
+            out.append(new)
+            return out
+        if isinstance(s, (ast.While, ast.For, ast.Try, ast.With, ast.If)):
+            # not expressible by nesting alone: finish this part with a completion flag
+            flag = f"{tmp}_done"
+            out.append(ast.Assign(targets=[ast.Name(id=flag, ctx=ast.Store())], value=ast.Constant(value=False)))
+            out.extend(_eliminate_returns_flag([s] + rest, tmp, flag))
+            return out
         raise _CannotInline(f"return inside {type(s).__name__}")
+    return out
+
+
+def _eliminate_returns_flag(stmts: List[ast.stmt], tmp: str, flag: str, depth: int = 0) -> List[ast.stmt]:
+    """General return elimination with a completion flag: `return E` -> `tmp = E; flag = True` (+ `break` inside a
+    loop); after a loop that may have returned: `if flag: break` (nested) or the rest of the block under `if not flag:`."""
+
+    def assign(name, value):
+        return ast.Assign(targets=[ast.Name(id=name, ctx=ast.Store())], value=value)
+
+    out: List[ast.stmt] = []
+    for i, s in enumerate(stmts):
+        rest = stmts[i + 1:]
+        if isinstance(s, ast.Return):
+            out.append(assign(tmp, s.value if s.value is not None else ast.Constant(value=None)))
+            out.append(assign(flag, ast.Constant(value=True)))
+            if depth > 0:
+                out.append(ast.Break())
+            return out
+        if not _has(s, ast.Return):
+            out.append(s)
+            continue
+        new = copy.copy(s)
+        if isinstance(s, ast.If):
+            new.body = _eliminate_returns_flag(s.body, tmp, flag, depth)
+            new.orelse = _eliminate_returns_flag(s.orelse, tmp, flag, depth) if s.orelse else []
+        elif isinstance(s, (ast.While, ast.For)):
+            if _has(s.orelse, ast.Return):
+                raise _CannotInline("return in a loop's else block")
+            new.body = _eliminate_returns_flag(s.body, tmp, flag, depth + 1)
+        elif isinstance(s, ast.With):
+            new.body = _eliminate_returns_flag(s.body, tmp, flag, depth)
+        elif isinstance(s, ast.Try):
+            if _has(s.finalbody, ast.Return):
+                raise _CannotInline("return in finally")
+            new.body = _eliminate_returns_flag(s.body, tmp, flag, depth)
+            new.orelse = _eliminate_returns_flag(s.orelse, tmp, flag, depth) if s.orelse else []
+            new.handlers = []
+            for h in s.handlers:
+                h2 = copy.copy(h)
+                h2.body = _eliminate_returns_flag(h.body, tmp, flag, depth)
+                new.handlers.append(h2)
+        else:
+            raise _CannotInline(f"return inside {type(s).__name__}")
+        out.append(new)
+        # what follows runs only if the statement did not return
+        if isinstance(s, (ast.While, ast.For)) and depth > 0:
+            out.append(ast.If(test=ast.Name(id=flag, ctx=ast.Load()), body=[ast.Break()], orelse=[]))
+            out.extend(_eliminate_returns_flag(rest, tmp, flag, depth))
+            return out
+        if depth > 0 and not isinstance(s, (ast.While, ast.For)):
+            # inside a loop a return has already left the loop with `break`
+            out.extend(_eliminate_returns_flag(rest, tmp, flag, depth))
+            return out
+        tail = _eliminate_returns_flag(rest, tmp, flag, depth)
+        if tail:
+            out.append(ast.If(test=ast.UnaryOp(op=ast.Not(), operand=ast.Name(id=flag, ctx=ast.Load())), body=tail, orelse=[]))
+        return out
     return out
 
 
@@ -415,16 +555,27 @@ def inline_helpers(tree: ast.Module, known_funcs: Set[str], stats: dict) -> None
         body = [_Rename(ren).visit(s) for s in body]
         if direct:
             body = [_Subst(direct).visit(s) for s in body]
-        if mode == "value":
+        if mode in ("value", "proc") and (mode == "value" or _has(body, ast.Return)):
             if not _always_exits(body):
                 body = body + [ast.Return(value=ast.Constant(value=None))]
-            body = _eliminate_returns(body, tmp, call)
-        elif mode == "proc":
-            if _has(body, ast.Return):
-                body = _eliminate_returns(body + [ast.Return(value=None)], tmp, call)
+            try:
+                body = _eliminate_returns(copy.deepcopy(body), tmp, call)
+            except _CannotInline:
+                flag = f"{tmp}_done"
+                body = [ast.Assign(targets=[ast.Name(id=flag, ctx=ast.Store())], value=ast.Constant(value=False))] + \
+                    _eliminate_returns_flag(body, tmp, flag)
         elif mode == "tail":
             if not _always_exits(body):
                 body = body + [ast.Return(value=ast.Constant(value=None))]
+        if mode == "proc" and tmp:
+            # the value of a procedure call is not used: drop the stores of the result temporary
+            class _Drop(ast.NodeTransformer):
+                def visit_Assign(self, node):
+                    if len(node.targets) == 1 and isinstance(node.targets[0], ast.Name) and node.targets[0].id == tmp:
+                        return ast.Pass()
+                    return node
+
+            body = [_Drop().visit(s) for s in body]
         out = pre + body
         for s in out:
             for n in ast.walk(s):
